@@ -225,7 +225,7 @@ func mayAuth(c *Conn) bool {
 }
 
 //@ rule (c *Conn)
-//@   props C05:callsite,post,pre@call C06:bounds,assert-type,div0,panic-unreachable
+//@   props C05:callsite,post,pre@call C06:bounds,assert-type,div0,panic-unreachable,pre@call
 //@   requires c != nil && c.server != nil
 //@   callsite Session.Login requires mayAuth(c)
 //@   callsite Session.Select requires authed(c)
@@ -380,6 +380,33 @@ func isStartTLSConn(conn net.Conn) bool {
 //@   loop 0 invariant forall j int :: 0 <= j && j <= i ==> old(t.queue[j].expunge) == 0
 //@   loop 0 decreases len(t.queue) - i
 
+// A session's queue grows by exactly the given update, at the end: updates are
+// never merged, dropped or reordered when they are queued (the translations
+// above interpret every queue entry as one step).
+//
+//@ func (t *SessionTracker) queueUpdate(update *trackerUpdate)
+//@   props C07:post,pre@call,bounds
+//@   requires update != nil
+//@   ensures len(t.queue) == old(len(t.queue))+1
+//@   ensures __same(t.queue[len(t.queue)-1], old(*update))
+//@   ensures forall j int :: 0 <= j && j < old(len(t.queue)) ==> __same(t.queue[j], old(t.queue[j]))
+
+// The mailbox-level count follows the updates (one less per expunge, the new
+// count for EXISTS), every queued update is well formed for the count at that
+// moment (which is what the translations assume of a queue), and the two
+// panics guard caller misuse only.
+//
+//@ func (t *MailboxTracker) queueUpdate(update *trackerUpdate, source *SessionTracker)
+//@   props C07
+//@   requires t != nil && update != nil
+//@   panics only if (update.expunge != 0 && update.expunge > t.numMessages) || (update.numMessages != 0 && update.numMessages < t.numMessages)
+//@   ensures old(update.expunge) != 0 ==> t.numMessages == old(t.numMessages)-1
+//@   ensures old(update.expunge) == 0 && old(update.numMessages) != 0 ==> t.numMessages == old(update.numMessages)
+//@   ensures old(update.expunge) == 0 && old(update.numMessages) == 0 ==> t.numMessages == old(t.numMessages)
+//@   ensures update.expunge == old(update.expunge) && update.numMessages == old(update.numMessages)
+//@   ensures old(update.expunge) == 0 || old(update.numMessages) == 0 ==> wfUpdate(*update, old(t.numMessages))
+//@   ensures cntAfter(*update, old(t.numMessages)) == t.numMessages
+
 // ---------------------------------------------------------------------------
 // C04: command framing. The ghost counter "tagged" counts tagged response
 // lines (status responses written with a non-empty tag); it is defined by the
@@ -532,7 +559,10 @@ func TrackerWF(t *SessionTracker) bool {
 // ---------------------------------------------------------------------------
 // C02: a failing sub-key of NOT / OR is reported, never turned into success.
 
-//@ func readSearchKeyWithAtom(criteria *imap.SearchCriteria, dec *imapwire.Decoder, key string) (err error)
+//@ func readSearchKeyWithAtom(criteria *imap.SearchCriteria, dec *imapwire.Decoder, key string, depth int) (err error)
+//@   props C06:rec-decreases,pre@call
+//@   requires[C06] depth <= maxSearchKeyDepth
+//@   decreases 2*(maxSearchKeyDepth+1-depth)
 //@   props C02:post,pre@call C19:post,pre@call
 //@   requires criteria != nil
 //@   ensures __called("readSearchKey") && __failed("readSearchKey") ==> err != nil
@@ -548,11 +578,21 @@ func TrackerWF(t *SessionTracker) bool {
 // readSearchKey is recursive through a closure handed to Decoder.ExpectList;
 // its frame (it only fills the criteria it is given) is assumed, not proved.
 //
-//@ func readSearchKey(criteria *imap.SearchCriteria, dec *imapwire.Decoder) (err error)
+//@ func readSearchKey(criteria *imap.SearchCriteria, dec *imapwire.Decoder, depth int) (err error)
+//@   props C06:rec-decreases,pre@call
+//@   decreases 2*(maxSearchKeyDepth+1-depth)+1
 //@   props C02:post C19:post
 //@   trusted
 //@   modifies criteria
 //@   ensures old(dec.Err()) != nil ==> dec.Err() == old(dec.Err())
+
+// The parenthesized-list branch recurses through this closure, one level deeper.
+//
+//@ closure 0 of func readSearchKey(criteria *imap.SearchCriteria, dec *imapwire.Decoder, depth int) (err error)
+//@   props C06:rec-decreases,pre@call
+//@   params ()
+//@   captures (depth int)
+//@   requires depth <= maxSearchKeyDepth
 
 var _ time.Time
 
